@@ -69,6 +69,31 @@ def build_program(seed, run, tag=0xC01, overrides=None, prop=PROP):
                 elif cur is not a and cur != a:
                     discard = "alias of an already aliased argument changed"  # judged by the final pass
             op["alias_fx"] = fx
+    if prop == PROP and discard is None and rng.random() < 0.35:
+        # probe tail (oracle K on ANCESTORS): late continuations of the oldest objects, after everything else has
+        # happened around them - what exposes hidden receiver state that no render of the receiver itself shows
+        olds = [i for i, v in enumerate(env.heap) if is_object_slot(v) and g.kind(v) in ("qb", "setop", "term", "table", "create")]
+        olds = olds[: max(1, len(olds) // 3)]
+        for _ in range(rng.randint(2, 4)):
+            if not olds:
+                break
+            ri = olds[rng.randrange(len(olds))]
+            v = g.deref(ri)
+            ms = g.methods_of(v)
+            if not ms or g.is_mutable(v):
+                continue
+            i = g.g_call(ri, g.pick_method(v, ms))
+            if i is None:
+                continue
+            op = g.program[i]
+            before = alias_snapshot(env, op)
+            env.heap.append(engine.exec_op(env, op))
+            if alias_changed(env, before):
+                if not knobs["autoalias"]:
+                    discard = "autoalias on a shared object"
+                    break
+                op["alias_fx"] = [[d, env.heap[d].__dict__.get("alias")] for d, a in before
+                                  if a is None and isinstance(env.heap[d].__dict__.get("alias"), str)]
     return g.program, knobs, env, g, discard, rng
 
 
@@ -205,7 +230,10 @@ def plan_sim(program, knobs, rng, config, op_len):
             cands = [i for i in range(n) if op_len.get(i, 0) > 2]
         rng.shuffle(cands)
         for i in cands[: rng.randint(1, 3)]:
-            plan["faults"].append({"op": i, "step": rng.randint(1, op_len[i]), "kind": "async_exc"})
+            # async_exc: a BaseException (KeyboardInterrupt-like); async_err: an ordinary Exception (a timeout handler
+            # that raises), which `except Exception` blocks in the library do see
+            plan["faults"].append({"op": i, "step": rng.randint(1, op_len[i]),
+                                   "kind": "async_exc" if rng.random() < 0.65 else "async_err"})
     return plan
 
 
@@ -442,9 +470,9 @@ def crashpoint_sweep(seed, run, max_steps=400):
     fired = 0
     for sstep in range(1, steps + 1):
         plan = {"gran": "LINE", "assign": {str(i): 0 for i in range(len(sub))}, "mean_q": 1 << 20, "stall": None,
-                "faults": [{"op": j, "step": sstep, "kind": "async_exc"}], "start": j}
+                "faults": [{"op": j, "step": sstep, "kind": "async_exc" if (sstep + run) % 3 else "async_err"}], "start": j}
         env2, sim, _ = run_sim(sub, st, plan, trace=[])
-        fired += sim.fired.get("async_exc", 0)
+        fired += sim.fired.get("async_exc", 0) + sim.fired.get("async_err", 0)
         for i in range(j):
             v = env2.heap[i]
             if isinstance(v, (lang.Skipped, lang.Value, engine.MutableAlias)):
